@@ -4,7 +4,7 @@ callers convert with gen_nb.to_node before handing to nbdime."""
 import copy
 import random
 
-from .gen_nb import NBGen, validate_nb, fixture_notebooks, EXOTIC_SEPS, b64, CODE_LINES, OUT_LINES
+from .gen_nb import NBGen, validate_nb, fixture_notebooks, EXOTIC_SEPS, b64, CODE_LINES, OUT_LINES, MD_LINES
 from .gen_edit import mutate, mutate_once, edit_text
 from . import env
 
@@ -26,7 +26,9 @@ PAIR_CLASSES = ["related", "related", "related", "related", "unrelated", "fixtur
 
 def big_text(r, kind="html", size=None):
     """text whose length straddles nbdime's comparison cut-offs (10000 chars for text mime data, 1000 for streams)"""
-    size = size or r.choice([900, 1100, 3000, 9500, 10500, 13000, 36000])
+    # just below the 10000-character cut-off difflib's quadratic ratio runs in full (several seconds per comparison of
+    # two nearly equal texts): that size is drawn rarely
+    size = size or r.choice([900, 1100, 3000, 3000, 10500, 13000, 13000, 36000] + ([9500] if r.random() < 0.15 else []))
     if kind == "html":
         rows, i = ["<table>"], 0
         while sum(map(len, rows)) < size:
@@ -114,6 +116,17 @@ def nb_pair(gen, cls=None, minor=None):
             if chars[k] != "\n":
                 chars[k] = r.choice("QWZ#")
         b["cells"][0]["source"] = "".join(chars)
+        if r.random() < 0.4:
+            # ... or lines swapped / dropped: difflib's ratio then depends on the ORDER of its two arguments
+            ls = list(lines)
+            i_ = r.randrange(len(ls) - 1)
+            ls[i_], ls[i_ + 1] = ls[i_ + 1], ls[i_]
+            if len(ls) > 3:
+                del ls[r.randrange(len(ls))]
+            if r.random() < 0.5:
+                j_ = r.randrange(len(ls))
+                ls.insert(j_, ls[j_])
+            b["cells"][0]["source"] = "\n".join(ls) + "\n"
         if r.random() < 0.5:   # and something else moves around it
             b, rec2 = mutate(b, gen, steps=1)
             rec += rec2
@@ -179,6 +192,26 @@ def nb_pair(gen, cls=None, minor=None):
         a["cells"].insert(0, _code_cell(gen, m, "plt.plot(x)", [o]))
         b = copy.deepcopy(a)
         b["cells"][0]["outputs"][0]["data"]["text/plain"] = "<matplotlib.lines.Line2D at 0x7f%06xa0>" % r.randrange(16 ** 6)
+    elif cls == "mime_keys" and r.random() < 0.4:
+        # unusual spellings of mime types (they are case-insensitive; nbformat does not restrict them), kept on both
+        # sides with different values, in an output's data and in an attachment
+        odd = {"image/PNG": b64(r, 30), "text/Markdown": "# title\n\ntext\n", "Text/X-Custom": "line 1\nline 2\n",
+               "application/vnd.Acme.Table+json": {"rows": [1, 2]}, "TEXT/PLAIN": "shout\n"}
+        keys = r.sample(sorted(odd), r.randrange(1, 4))
+        o = {"output_type": "display_data", "metadata": {}, "data": {k: copy.deepcopy(odd[k]) for k in keys}}
+        o["data"]["text/plain"] = "<obj>"
+        a["cells"].insert(0, _code_cell(gen, m, "display(x)", [o]))
+        mc = gen.cell(m, "markdown")
+        mc["attachments"] = {"fig": {k: copy.deepcopy(odd[k]) for k in keys if not k.endswith("json")} or {"image/PNG": odd["image/PNG"]}}
+        a["cells"].insert(1, mc)
+        b = copy.deepcopy(a)
+        for bundle in (b["cells"][0]["outputs"][0]["data"], b["cells"][1]["attachments"]["fig"]):
+            for k in list(bundle):
+                if k == "text/plain" or r.random() < 0.3:
+                    continue
+                v = bundle[k]
+                bundle[k] = (v[:-4] + "QUJD") if k == "image/PNG" else ((v + "more\n") if isinstance(v, str) else dict(v, rows=[1, 2, 3]))
+        rec.append("mixed-case-mime-keys")
     elif cls == "mime_keys":
         o = gen.output("display_data")
         a["cells"].insert(0, _code_cell(gen, m, "display(x)", [o]))
@@ -372,6 +405,34 @@ def nb_pair(gen, cls=None, minor=None):
     return cls, a, b, rec
 
 
+def asymmetric_similarity_sources(gen, threshold=0.7, tries=60):
+    """two texts whose difflib similarity lies on DIFFERENT sides of the threshold depending on the order of the two
+    arguments (SequenceMatcher.ratio is not symmetric): lines swapped, dropped, duplicated.  None if not found."""
+    import difflib
+    r = gen.rng
+    for _ in range(tries):
+        lines = [gen.line(CODE_LINES) for _ in range(r.choice([4, 5, 6, 8]))]
+        ls = list(lines)
+        for _e in range(r.choice([2, 3, 4])):
+            c = r.random()
+            i_ = r.randrange(len(ls))
+            if c < 0.4 and len(ls) > 1:
+                j_ = r.randrange(len(ls))
+                ls[i_], ls[j_] = ls[j_], ls[i_]
+            elif c < 0.65 and len(ls) > 2:
+                del ls[i_]
+            elif c < 0.85:
+                ls.insert(i_, ls[i_])
+            else:
+                ls[i_] = gen.line(CODE_LINES)
+        x, y = "\n".join(lines) + "\n", "\n".join(ls) + "\n"
+        r1 = difflib.SequenceMatcher(None, x, y, autojunk=False).ratio()
+        r2 = difflib.SequenceMatcher(None, y, x, autojunk=False).ratio()
+        if (r1 > threshold) != (r2 > threshold):
+            return x, y
+    return None
+
+
 def shuffle_keys(x, r):
     """the same JSON document with another member order in every object (JSON objects are unordered; notebooks
     written by other tools order their keys differently)"""
@@ -407,7 +468,7 @@ TRIPLE_CLASSES = ["random", "random", "random", "del_vs_edit", "del_vs_edit", "i
                   "minor_diff", "retype", "empty_source", "both_append_outputs", "exec_count", "fixture",
                   "nbmeta_conflict", "out_meta_conflict", "multi_line_meta", "del_vs_transient", "del_vs_transient",
                   "both_insert_lists", "nul_in_source", "same_insert_edit_below", "transient_meta_conflict",
-                  "del_vs_output_edit", "large_outputs", "long_notebook", "wide_metadata", "both_rerun", "both_rerun", "same_size_sides", "repeated_content", "same_frame_insert", "cr_progress", "both_reid"]
+                  "del_vs_output_edit", "large_outputs", "long_notebook", "wide_metadata", "both_rerun", "both_rerun", "same_size_sides", "repeated_content", "same_frame_insert", "cr_progress", "both_reid", "same_id_insert"]
 
 
 def merge_triple(gen, cls=None, minor=None, plain_eol=False):
@@ -859,6 +920,31 @@ def merge_triple(gen, cls=None, minor=None, plain_eol=False):
         loc, r1 = mutate(base, gen, steps=2)
         rem, r2 = mutate(base, gen, steps=2)
         info = {"local": r1, "remote": r2}
+    elif cls == "same_id_insert":
+        # both branches picked up the SAME new cell (same id where ids exist) at one position and then edited it
+        # differently (a little: similar; a lot: dissimilar); one side may also delete / replace the base cell that follows
+        c = gen.cell(m, r.choice(["code", "markdown"]))
+        c["source"] = "\n".join(gen.line(CODE_LINES) for _ in range(4)) + "\n"
+        pos = r.randrange(len(base["cells"]) + 1)
+        lc, rc = copy.deepcopy(c), copy.deepcopy(c)
+        how = r.choice(["similar", "dissimilar", "dissimilar", "identical"])
+        if how == "similar":
+            lc["source"] += "# local note\n"
+            rc["source"] = rc["source"].replace("\n", "  # r\n", 1)
+        elif how == "dissimilar":
+            lc["source"] = "\n".join(gen.line(CODE_LINES) for _ in range(3)) + "\n"
+            rc["source"] = "\n".join(gen.line(MD_LINES if False else CODE_LINES) + " # other" for _ in range(3)) + "\n"
+        loc["cells"].insert(pos, lc)
+        rem["cells"].insert(pos, rc)
+        follow = r.choice(["keep", "keep", "local_deletes", "remote_deletes", "remote_replaces"])
+        if pos < len(base["cells"]):
+            if follow == "local_deletes":
+                del loc["cells"][pos + 1]
+            elif follow == "remote_deletes":
+                del rem["cells"][pos + 1]
+            elif follow == "remote_replaces":
+                rem["cells"][pos + 1] = gen.cell(m)
+        info = {"pos": pos, "how": how, "follow": follow}
     elif cls == "nul_in_source":
         # a NUL character inside a source (valid JSON, valid notebook): external text tools treat the text as binary
         lines = ["line one of %d" % r.randrange(99), "binary \x00 payload pasted here", "line three", "line four"]
